@@ -5,6 +5,7 @@ Scenario `cw20`: op-line parser, observation renderer and property monitors
 (C01, C02, C13, C19) for the cw20-base model.
 -/
 -- SCENARIO cw20 Cw20.scen
+-- SCENARIO cw20wide Cw20.scen
 namespace CwPlus.Driver.Cw20
 open CwPlus Wire Driver CwPlus.Cw20
 
